@@ -124,7 +124,7 @@ theorem handler_shared_iff (C : Crypto) (ps : Pairings) (fresh : Nat) (c : Conn)
                 · simp at h
                 · next ctx hctx =>
                   split at h
-                  · simp [authErr] at h
+                  · simp at h
                   · next dec hdec =>
                     split at h
                     · simp at h
@@ -136,21 +136,21 @@ theorem handler_shared_iff (C : Crypto) (ps : Pairings) (fresh : Nat) (c : Conn)
                         · simp at h
                         · next u hu =>
                           split at h
-                          · simp [authErr] at h
+                          · simp at h
                           · next k hk =>
                             split at h
                             · simp at h
                             · next hok =>
                               split at h
-                              · simp [authErr] at h
+                              · simp at h
                               · next proof hpr =>
                                 split at h
                                 · next hv =>
                                   refine ⟨⟨ctx, uname, some proof⟩, proof, u, k, ?_, rfl, hu, hk, ?_, ?_⟩
-                                  · simp [claimOf, hobjs, hseq, hn1, h3, henc, hctx, hdec, hsub, hun, hpr]
+                                  · simp [claimOf, hobjs, hseq, h3, henc, hctx, hdec, hsub, hun, hpr]
                                   · simpa using hok
                                   · simpa [materialOf] using hv
-                                · simp [authErr] at h
+                                · simp at h
             · simp at h
   · rintro ⟨cl, proof, u, k, hcl, hpr, hu, hk, hok, hv⟩
     have hp := getKey_some_isPaired hk
@@ -184,7 +184,7 @@ theorem handler_shared_iff (C : Crypto) (ps : Pairings) (fresh : Nat) (c : Conn)
                       simp at hcl
                       subst hcl
                       simp at hpr hu hv
-                      simp [handlePairVerify, hp, hobjs, hseq, hn1, h3, verifyTwo, henc, hctx, hdec, hsub,
+                      simp [handlePairVerify, hp, hobjs, hseq, h3, verifyTwo, henc, hctx, hdec, hsub,
                         hun, hu, hk, hok, hpr, materialOf] at hv ⊢
                       simp [hv]
           · simp at hcl
@@ -230,7 +230,7 @@ theorem handler_accept_effect (C : Crypto) (ps : Pairings) (fresh : Nat) (c : Co
                     simp at hcl
                     subst hcl
                     simp at hpr hu hv
-                    simp [handlePairVerify, hp, hobjs, hseq, hn1, h3, verifyTwo, henc, hctx, hdec, hsub,
+                    simp [handlePairVerify, hp, hobjs, hseq, h3, verifyTwo, henc, hctx, hdec, hsub,
                       hun, hu, hk, hok, hpr, materialOf] at hv ⊢
                     simp [hv]
         · simp at hcl
@@ -309,7 +309,7 @@ theorem getKey_addPairing_ne (ps : Pairings) (u v : Uuid) (k : Key) (a : Bool) (
   | cons e r ih =>
     by_cases h : e.uuid = u
     · have : e.uuid ≠ v := by rw [h]; exact hne
-      simp [addPairing, h, getKey, hne, this]
+      simp [addPairing, h, getKey, hne]
     · simp [addPairing, h, getKey, ih]
 
 theorem getKey_addPairing_self (ps : Pairings) (u : Uuid) (k : Key) (a : Bool) :
